@@ -619,6 +619,12 @@ package reflect
 // A failed build leaves no trace: the entry of the type being built is removed again, every entry
 // that existed before is unchanged, and whatever else was added is complete.
 //@ const ghost $complete = (Array Int Bool)
+// $sd0: the Sd fields as they were when the build in progress started; $pfi[a]: position of tType a
+// in prefetchedTypes. Every Sd field that differs from $sd0 was nil before and is listed, so that a
+// failed build can be undone completely (C13: the same definition is rejected the same way next time).
+//@ const ghost $sd0 = (Array Int Int)
+//@ const ghost $pfi = (Array Int Int)
+//@ macro sdtrack = (forall i int :: {prefetchedTypes[i]} 0 <= i && i < len(prefetchedTypes) ==> prefetchedTypes[i] != nil && $sd0[prefetchedTypes[i]] == 0) && (forall a Int :: {sel(heap("tType.Sd"), a)} sel(heap("tType.Sd"), a) != $sd0[a] ==> $sd0[a] == 0 && 0 <= $pfi[a] && $pfi[a] < len(prefetchedTypes) && prefetchedTypes[$pfi[a]] == a)
 //@ const ghost $inprog = (Array Int Bool)
 //@ macro pfinv = prefetchStructDescCache != nil && (forall k reflect.Type :: {maphas(prefetchStructDescCache, k)} maphas(prefetchStructDescCache, k) ==> mapget(prefetchStructDescCache, k) != nil && goodSD(mapget(prefetchStructDescCache, k), structT(k)) && ($complete[mapget(prefetchStructDescCache, k)] || $inprog[k]))
 //@ macro pfstable = forall k reflect.Type :: {maphas(prefetchStructDescCache, k)} old(maphas(prefetchStructDescCache, k)) ==> maphas(prefetchStructDescCache, k) && mapget(prefetchStructDescCache, k) == old(mapget(prefetchStructDescCache, k))
@@ -650,8 +656,10 @@ package reflect
 //@   ensures c09_required: err == nil ==> forall j int :: {sd.requiredFieldIDs[j]} 0 <= j && j < len(sd.requiredFieldIDs) ==> sd.requiredFieldIDs[j] <= sd.maxID && sd.fieldIdx[sd.requiredFieldIDs[j]] >= 0
 
 //@ func newStructDescAndPrefetch(t reflect.Type) (sd *structDesc, err error)
+//@   requires c13_track: $(sdtrack)
+//@   ensures c13_track: $(sdtrack)
 //@   requires c07_inv: $(pfinv)
-//@   modifies $maps, $brk, $complete, $inprog, "H.tType.Sd"
+//@   modifies $maps, $brk, $complete, $inprog, "H.tType.Sd", $pfi, "P.p.tType", "P.$$p.tType"
 //@   after newStructDesc ghost $inprog = (res_err == nil ? store($inprog, t, true) : $inprog)
 //@   after prefetchSubStructDesc ghost $complete = (res_err == nil ? store($complete, sd, true) : $complete)
 //@   after prefetchSubStructDesc ghost $inprog = store($inprog, t, old($inprog[t]))
@@ -665,10 +673,12 @@ package reflect
 //@   ensures old($brk) <= $brk
 
 //@ func prefetchSubStructDesc(d *structDesc) (err error)
+//@   requires c13_track: $(sdtrack)
+//@   ensures c13_track: $(sdtrack)
 //@   requires d != nil
 //@   requires forall i int :: {d.fields[i]} 0 <= i && i < len(d.fields) ==> d.fields[i] != nil && d.fields[i].Type != nil && wfTshape(d.fields[i].Type)
 //@   requires c07_inv: $(pfinv)
-//@   modifies $maps, $brk, $complete, $inprog, "H.tType.Sd"
+//@   modifies $maps, $brk, $complete, $inprog, "H.tType.Sd", $pfi, "P.p.tType", "P.$$p.tType"
 //@   ensures c07_inv: $(pfinv)
 //@   ensures c07_stable: $(pfstable)
 //@   ensures c07_mono: $(pfmono)
@@ -676,15 +686,19 @@ package reflect
 //@   ensures c07_inprog: forall k reflect.Type :: {$inprog[k]} $inprog[k] == old($inprog[k])
 //@   ensures old($brk) <= $brk
 //@   loop 0 invariant c07_inv: $(pfinv)
+//@   loop 0 invariant c13_track: $(sdtrack)
 //@   loop 0 invariant c07_stable: $(pfstable)
 //@   loop 0 invariant c07_mono: $(pfmono)
 //@   loop 0 invariant c13_clean: $(pfclean)
 //@   loop 0 invariant c07_inprog: forall k reflect.Type :: {$inprog[k]} $inprog[k] == old($inprog[k])
 
 //@ func fetchStructDesc(t *tType) (err error)
+//@   after newStructDescAndPrefetch ghost $pfi = (res_err == nil ? store($pfi, t, len(prefetchedTypes)) : $pfi)
+//@   requires c13_track: $(sdtrack)
+//@   ensures c13_track: $(sdtrack)
 //@   requires wfTshape(t)
 //@   requires c07_inv: $(pfinv)
-//@   modifies $maps, $brk, $complete, $inprog, "H.tType.Sd"
+//@   modifies $maps, $brk, $complete, $inprog, "H.tType.Sd", $pfi, "P.p.tType", "P.$$p.tType"
 //@   ensures c07_inv: $(pfinv)
 //@   ensures c07_stable: $(pfstable)
 //@   ensures c07_mono: $(pfmono)
@@ -701,14 +715,27 @@ package reflect
 //@   modifies nothing
 //@   ensures c07_hit: sd != nil ==> rvKind(rv) != reflect.Invalid && structish(rvType(rv)) && goodSD(sd, structT(rvType(rv)))
 
+//@ func rollbackPrefetch()
+//@   requires c13_track: $(sdtrack)
+//@   modifies "H.tType.Sd", fields(&prefetchedTypes), fields(&prefetchStructDescCache), $brk, $maps
+//@   ensures c13_restored: forall a Int :: {sel(heap("tType.Sd"), a)} sel(heap("tType.Sd"), a) == $sd0[a]
+//@   ensures len(prefetchedTypes) == 0 && prefetchStructDescCache != nil && (forall k reflect.Type :: {maphas(prefetchStructDescCache, k)} !maphas(prefetchStructDescCache, k))
+//@   ensures old($brk) <= $brk
+//@   loop 0 invariant forall i int :: {prefetchedTypes[i]} 0 <= i && i < len(prefetchedTypes) ==> prefetchedTypes[i] != nil && $sd0[prefetchedTypes[i]] == 0
+//@   loop 0 invariant forall a Int :: {sel(heap("tType.Sd"), a)} sel(heap("tType.Sd"), a) != $sd0[a] ==> $sd0[a] == 0 && rangeindex < $pfi[a] && $pfi[a] < len(prefetchedTypes) && prefetchedTypes[$pfi[a]] == a
+
 // createStructDesc: anything that is not a struct or a pointer to a struct - including the zero
 // reflect.Value of a nil interface - is answered with an error, never a panic (C13); a failed
 // build registers nothing (C13/C07); what gets registered is THE descriptor of the type (C07).
 //@ func createStructDesc(rv reflect.Value) (sd *structDesc, err error)
+//@   requires c13_idle: len(prefetchedTypes) == 0
+//@   ensures c13_idle: len(prefetchedTypes) == 0
+//@   entry ghost $sd0 = heap("tType.Sd")
+//@   ensures c13_sd: err != nil ==> forall a Int :: {sel(heap("tType.Sd"), a)} sel(heap("tType.Sd"), a) == old(sel(heap("tType.Sd"), a))
 //@   requires c07_sds: $(sdsinv)
 //@   requires c07_inv: $(pfinv)
 //@   requires c07_idle: $(noinprog)
-//@   modifies $maps, $complete, $inprog, "H.tType.Sd", $sds, $sdsidx, "P.aptr"
+//@   modifies $maps, $complete, $inprog, "H.tType.Sd", $sds, $sdsidx, "P.aptr", $sd0, $pfi, "P.p.tType", "P.$$p.tType", "P.map$reflect.Type$p.structDesc"
 //@   ensures c07_sds: $(sdsinv)
 //@   ensures c07_inv: $(pfinv)
 //@   ensures c07_idle: $(noinprog)
@@ -719,10 +746,12 @@ package reflect
 //@   ensures old($brk) <= $brk
 
 //@ func getOrcreateStructDesc(rv reflect.Value) (sd *structDesc, err error)
+//@   requires c13_idle: len(prefetchedTypes) == 0
+//@   ensures c13_idle: len(prefetchedTypes) == 0
 //@   requires c07_sds: $(sdsinv)
 //@   requires c07_inv: $(pfinv)
 //@   requires c07_idle: $(noinprog)
-//@   modifies $maps, $complete, $inprog, "H.tType.Sd", $sds, $sdsidx, "P.aptr"
+//@   modifies $maps, $complete, $inprog, "H.tType.Sd", $sds, $sdsidx, "P.aptr", $sd0, $pfi, "P.p.tType", "P.$$p.tType", "P.map$reflect.Type$p.structDesc"
 //@   ensures c07_sds: $(sdsinv)
 //@   ensures c07_inv: $(pfinv)
 //@   ensures c07_idle: $(noinprog)
@@ -738,7 +767,7 @@ package reflect
 //@ const ghost $norewind = Bool
 //@ spec uf func anyPtr(v any) Int
 //@ spec uf func anySize(v any) Int
-//@ macro cachereq = $(sdsinv) && $(pfinv) && $(noinprog)
+//@ macro cachereq = $(sdsinv) && $(pfinv) && $(noinprog) && len(prefetchedTypes) == 0
 //@ func Decode(b []byte, v any) (n int, err error)
 //@   requires c07_caches: $(cachereq)
 //@   ensures c07_caches: $(cachereq)
@@ -746,7 +775,7 @@ package reflect
 //@   requires len(b) <= MAXIN && b.ptr + len(b) <= $brk && (len(b) > 0 ==> b.ptr >= 65536)
 //@   requires c16_disjoint: b.ptr + len(b) <= anyPtr(v) || anyPtr(v) + anySize(v) <= b.ptr
 //@   ensures c16_input: forall a Int :: {M[a]} b.ptr <= a && a < b.ptr + len(b) ==> M[a] == old(M[a])
-//@   modifies M, $brk, $initp, $maps, $complete, $inprog, "H.tType.Sd", $sds, $sdsidx, "P.aptr"
+//@   modifies M, $brk, $initp, $maps, $complete, $inprog, "H.tType.Sd", $sds, $sdsidx, "P.aptr", $sd0, $pfi, "P.p.tType", "P.$$p.tType", "P.map$reflect.Type$p.structDesc"
 //@   call Decode ghost lvl = 1
 //@   call Decode ghost nested = false
 //@   entry ghost $sp = 0
@@ -768,7 +797,7 @@ package reflect
 //@   requires c07_caches: $(cachereq)
 //@   ensures c07_caches: $(cachereq)
 //@   ensures c07_stable: $(sdsstable)
-//@   modifies $brk, $encp, $maps, $complete, $inprog, "H.tType.Sd", $sds, $sdsidx, "P.aptr"
+//@   modifies $brk, $encp, $maps, $complete, $inprog, "H.tType.Sd", $sds, $sdsidx, "P.aptr", $sd0, $pfi, "P.p.tType", "P.$$p.tType", "P.map$reflect.Type$p.structDesc"
 //@   after appendStruct ghost $encp = p
 //@   ensures c13_arg: rvKind(rvOf(v)) == reflect.Invalid || !structish(rvType(rvOf(v))) ==> err != nil
 //@   ensures c02_top: err == nil ==> r == WS(sdFor(rvOf(v)), M, $encp, b)
@@ -784,7 +813,7 @@ package reflect
 //@   requires c07_caches: $(cachereq)
 //@   ensures c07_caches: $(cachereq)
 //@   ensures c07_stable: $(sdsstable)
-//@   modifies $brk, $encp, $szerr, $maps, $complete, $inprog, "H.tType.Sd", $sds, $sdsidx, "P.aptr"
+//@   modifies $brk, $encp, $szerr, $maps, $complete, $inprog, "H.tType.Sd", $sds, $sdsidx, "P.aptr", $sd0, $pfi, "P.p.tType", "P.$$p.tType", "P.map$reflect.Type$p.structDesc"
 //@   entry ghost $szerr = 0
 //@   after createStructDesc ghost $szerr = res_err
 //@   after EncodedSize ghost $encp = p
